@@ -12,7 +12,7 @@
                           jacobian_dict) for each of its two Jacobians (flow_derivatives replaced by a recorder; any other
                           value than the caller's or None, another derivative order or other keys abort the translation)."""
 from tr_units.bspline import simple_float_literals
-from tr_units.flowalg import bch_section, logv_section, lie_opts_section, emit_flags
+from tr_units.flowalg import bch_section, logv_section, lie_opts_section, logv_spacing_section, emit_flags
 
 
 def generate(loader):
@@ -23,10 +23,12 @@ def generate(loader):
         bch = bch_section(flow_mod)
         lflags = logv_section((flow_mod, img, grid_mod))
         lie = lie_opts_section(flow_mod)
+        lsp = logv_spacing_section(flow_mod, img)
     out = ["From DV Require Import Model.Sampler Model.BCH.", "",
            "(* compose_svfs(u, v, bch_terms): linear combination of u, v and nested brackets (lie_bracket opaque) *)", bch,
            "(* logv(flow, align_corners = ac): flags reaching Grid.coords / F.grid_sample in its expv step and in its compose_flows step *)"]
     out += emit_flags("gen_logv_expv", lflags["expv"])
     out += emit_flags("gen_logv_compose", lflags["compose"])
     out.append(lie)
+    out.append(lsp)
     return "\n".join(out) + "\n"
